@@ -107,15 +107,21 @@ def simultaneous_groups(ctx: Ctx, pid: str):
     detail = "no symmetric insertion into the independence table"
     for x, a in effects:
         mi = pmatch("Q_tab[Q_a].add(Q_b)", a.call)
+        tab_cond = weak_tab = None
+        if mi is not None and mi["tab"][0] == "ife":
+            # one of two tables is chosen per pair: (weak if <condition> else strict)[t1].add(t2)
+            tab_cond, weak_tab = mi["tab"][1], mi["tab"][2]
+            mi = dict(mi, tab=mi["tab"][3])
         if mi is None or indep_tab is None or mi["tab"] != indep_tab:
             continue
         la = loops(a)
         detail = f"{tstr(a.call)} over {[tstr(l[1])[:120] for l in la]}"
         if len(la) == 3 and _elems(la[0][1]):
-            okb, exempt = _independents_by_group(fn, x, a, la, mi)
+            okb, exempt = _independents_by_group(fn, x, a, la, mi, tab_cond)
             if okb:
                 okI = True
                 ctx.__dict__["_nonexclusive_callers_exempt"] = exempt
+                ctx.__dict__["_weak_independents"] = weak_tab if exempt else None
                 detail += f"; skipped if {fstr(f_not(py_guard(a)))}"
                 break
             continue
@@ -194,7 +200,7 @@ def simultaneous_groups(ctx: Ctx, pid: str):
             rest = [t for t in ats if t not in known]
             okconf = False
             if len(known) == 1 and len(rest) == 1:
-                okconf = _conflicting(rest[0], new, indep_tab)
+                okconf = _conflicting(rest[0], new, indep_tab, ctx.__dict__.get("_weak_independents"), sim_set)
             oks = okconf and equivalent(gs, f_or(A(known[0]), A(rest[0]))) is None
             detail += f"; skipped if {fstr(gs)[:260]}"
             # both effects happen exactly when the group is not skipped
@@ -217,6 +223,14 @@ def simultaneous_groups(ctx: Ctx, pid: str):
     ctx.check(okC, rule + ".closure", exts[0][1].site if exts else fn.site, "_simultaneous.closure", found=detail,
               required="worklist seeded with the pairs; a group taken from it is skipped iff already recorded or containing two different independent members; "
                        "otherwise it is recorded and its union with every pair sharing a member is queued")
+    # the callers of one nonexclusive body may be *required* to be simultaneous (F27), but the closure must not join two of them
+    # through a common partner: exempting them from independence altogether makes two unrelated callers of a nonexclusive
+    # method with a condition() runnable only together (first repair of F27, findings/F33_*.py)
+    exempt = ctx.__dict__.get("_nonexclusive_callers_exempt")
+    weak = ctx.__dict__.get("_weak_independents")
+    ctx.check(not exempt or weak is not None, rule + ".closure-keeps-callers-apart", fn.site, "_simultaneous.closure.nonexclusive-callers",
+              found="callers of a nonexclusive body are " + ("kept in a second table the closure consults" if weak is not None else "exempt from independence altogether" if exempt else "independent"),
+              required="pairs exempt from the rejection are still kept apart by the transitivity step unless the pair itself is required to be simultaneous")
 
     # ---- maximal groups, retired transactions ------------------------------------------------------------------------------
     okM = False
@@ -300,7 +314,7 @@ def simultaneous_groups(ctx: Ctx, pid: str):
               required="a relation is removed only if it is not a conflict and its end is a simultaneous partner of the body it is declared on")
 
 
-def _independents_by_group(fn, ex, a, la, mi):
+def _independents_by_group(fn, ex, a, la, mi, tab_cond=None):
     """The independence table filled group by group: L = [transactions_for(b) for b in [e] + e.independent_list],
     for (k1, k2) in range(len(L))^2, for (t1, t2) in L[k1] x L[k2]: independents[t1].add(t2) - all pairs, except possibly
     the pairs among the callers of e itself (k1 = k2 = 0) when e is nonexclusive (F27).
@@ -330,19 +344,13 @@ def _independents_by_group(fn, ex, a, la, mi):
     first = [A(mk_op("==", ("i", kk, ("c", k)), ("c", 0))) for k in (0, 1)]
     nonex = A(("a", el, "nonexclusive"))
     exemption = f_and(nonex, *first)
-    g = py_guard(a)
-    # a `continue` in the loop over (k1, k2) does not show in the frames of the insertion: look at the jumps of this configuration
-    # (of any configuration: the insertion and the jump that skips it are never in the same one)
-    jumps = []
-    for jx in fn.exs:
-        for j in jx.of(Jump):
-            if j.kind in ("continue", "break") and [l[1] for l in loops(j)] == [l[1] for l in la[:2]] and py_guard(j) not in [py_guard(k) for k in jumps]:
-                jumps.append(j)
-    if g is True and not jumps:
+    g = py_guard(a)  # includes the negated test of an `if ..: continue` earlier in the loop body (stage.walk_body)
+    if tab_cond is not None:
+        # the exempt pairs go to a second (weak) table instead of being skipped
+        return (True, True) if g is True and equivalent(to_formula(tab_cond), exemption) is None else (False, False)
+    if g is True:
         return True, False
-    if g is True and len(jumps) == 1 and jumps[0].kind == "continue" and equivalent(py_guard(jumps[0]), exemption) is None:
-        return True, True
-    if not jumps and equivalent(g, f_not(exemption)) is None:
+    if equivalent(g, f_not(exemption)) is None:
         return True, True
     return False, False
 
@@ -404,14 +412,19 @@ def _enclosing_missing_atom(x, a, gb) -> bool:
     """a == any(not group & frozenset(transactions_for(dep)) for t in group for dep in ready_dependencies[t] if dep in t.simultaneous_list)
     for the group bound by `gb` (None: any binder), ready_dependencies being the result of self._ready_dependencies."""
     ma = pmatch("any(Q_g)", a)
-    if ma is None or ma["g"][0] != "lc" or len(ma["g"][3]) != 2:
+    if ma is None or ma["g"][0] != "lc" or len(ma["g"][3]) != 3:
         return False
-    (tb, tit, tc), (db, dit, dc) = ma["g"][3]
-    tb = tb[0] if isinstance(tb, tuple) and tb and isinstance(tb[0], tuple) else tb
-    db = db[0] if isinstance(db, tuple) and db and isinstance(db[0], tuple) else db
+
+    def _b(b):
+        return b[0] if isinstance(b, tuple) and b and isinstance(b[0], tuple) else b
+
+    # for t in group, for body in <map>.ready_for_transaction(t) (t itself and every method it calls: F34), for dep in rd[body]
+    (mb, tit, tc), (tb, bit, bc), (db, dit, dc) = ma["g"][3]
+    mb, tb, db = _b(mb), _b(tb), _b(db)
     grp = tit
+    mr = pmatch("Q_mm.ready_for_transaction(Q_t)", bit)
     md = pmatch("Q_rd[Q_t]", dit)
-    if (gb is not None and grp != gb) or tc or md is None or md["t"] != tb:
+    if (gb is not None and grp != gb) or tc or bc or mr is None or mr["t"] != mb or md is None or md["t"] != tb:
         return False
     if len(dc) != 1 or pmatch("Q_d in Q_t.simultaneous_list", dc[0]) != {"d": db, "t": tb}:
         return False
@@ -469,7 +482,7 @@ def group_has_enclosing(ctx: Ctx, pid: str):
                        "if dep in t.simultaneous_list)")
 
 
-def _conflicting(t, group, tab) -> bool:
+def _conflicting(t, group, tab, weak=None, pairs_set=None) -> bool:
     """t == conflicting(group): any two different members are independent."""
     body = None
     m = pmatch("any(Q_g)", t)
@@ -486,7 +499,16 @@ def _conflicting(t, group, tab) -> bool:
     ats = atoms_of(f)
     ne = [a for a in ats if a[0] == "op" and a[1] in ("!=", "==", "is") and set(a[2:]) == {b1, b2}]
     ind = [a for a in ats if (pmatch("Q_a in Q_tab[Q_b]", a) or {}).get("tab") == tab and {pmatch("Q_a in Q_tab[Q_b]", a)["a"], pmatch("Q_a in Q_tab[Q_b]", a)["b"]} == {b1, b2}]
-    if len(ne) != 1 or len(ind) != 1 or len(ats) != 2:
+    if len(ne) != 1 or len(ind) != 1:
         return False
     differ = A(ne[0]) if ne[0][1] == "!=" else f_not(A(ne[0]))
-    return equivalent(f, f_and(differ, A(ind[0]))) is None
+    if weak is None:
+        return len(ats) == 2 and equivalent(f, f_and(differ, A(ind[0]))) is None
+    # with a weak table (callers of one nonexclusive body): weakly independent members conflict unless the pair itself is
+    # required to be simultaneous - otherwise the closure would glue unrelated callers together through a common partner
+    wk = [a for a in ats if (pmatch("Q_a in Q_tab[Q_b]", a) or {}).get("tab") == weak and {pmatch("Q_a in Q_tab[Q_b]", a)["a"], pmatch("Q_a in Q_tab[Q_b]", a)["b"]} == {b1, b2}]
+    req = [a for a in ats if pmatch("frozenset({Q_a, Q_b}) in Q_s", a) is not None and {pmatch("frozenset({Q_a, Q_b}) in Q_s", a)["a"], pmatch("frozenset({Q_a, Q_b}) in Q_s", a)["b"]} == {b1, b2}
+           and pmatch("frozenset({Q_a, Q_b}) in Q_s", a)["s"] == pairs_set]
+    if len(wk) != 1 or len(req) != 1 or len(ats) != 4:
+        return False
+    return equivalent(f, f_and(differ, f_or(A(ind[0]), f_and(A(wk[0]), f_not(A(req[0])))))) is None
